@@ -169,8 +169,8 @@ CHECKS = {
                        "thorough": ["-bounds", "N14chunk=8"]},
              "reach": []},
             {"pkg": "service", "run": "H14b_.*",
-             "flags": {"common": ["-unwind", "40", "-sched", "canonical"]},
-             "reach_any": ["C14.blocked_producer", "C14.close_while_blocked"]},
+             "flags": {"common": ["-unwind", "100000", "-sched", "canonical"]},
+             "reach_any": ["C14.blocked_producer", "C14.close_while_blocked", "C14.blocked_readfrom"]},
             {"pkg": "service", "run": "H14w_.*", "flags": {"common": ["-unwind", "100000"]}, "reach": ["C14.write_ringsize"]},
             # packets of different sizes that straddle the end of the outgoing ring one after the other go through the
             # connection's scratch buffer: only the bytes of the current packet may enter the ring (see C17)
@@ -335,6 +335,9 @@ CHECKS = {
         "groups": [
             {"pkg": "service", "run": "H09_.*", "flags": {"common": ["-unwind", "64"]},
              "reach": ["C09.will_seen"], "reach_for": "H09_will|H09_reconnect", "reach_any": ["C09.pipelined", "C09.ended", "C09.reconnected", "C09.retained_will_qos", "C09.will_id_collides_with_one_in_flight"]},
+            # a dead client whose full outgoing ring blocks its own processor (or a publisher to it) is still dropped at
+            # keep-alive expiry, and its will is published (see C19 / C05; without the self-flooding variant: known finding there)
+            {"pkg": "service", "run": "H19b_dead_subscriber", "flags": {"common": ["-unwind", "100000", "-bounds", "N19selfflood=0"]}, "reach": ["C19.dead_subscriber_dropped"]},
             # the will is built by the broker without a packet identifier and gets one from the process-wide generator at
             # its first encoding (for a retained will: inside the retained store): from an arbitrary counter value (see C03)
             {"pkg": "message", "run": "H03d_.*", "flags": {"common": ["-unwind", "40"]}, "reach": ["C03.auto"]},
@@ -409,6 +412,9 @@ CHECKS = {
         "max_validate": {"quick": 60, "thorough": 200},
         "max_validate_sched": {"quick": 16, "thorough": 60},
         "groups": [
+            {"pkg": "service", "run": "H17_two_large_writers", "sched": True,
+             "flags": {"common": ["-unwind", "20000", "-sched", "explore"], "quick": ["-preempt", "1"], "thorough": ["-preempt", "2"]},
+             "reach": ["C17.two_writers"]},
             {"pkg": "service", "run": "H17_two_writers", "sched": True,
              "flags": {"common": ["-unwind", "64", "-sched", "explore"], "quick": ["-preempt", "2"], "thorough": ["-preempt", "3"]},
              "reach": ["C17.two_writers"]},
@@ -436,7 +442,7 @@ CHECKS = {
             # packets of different sizes, each straddling the end of the outgoing ring, one after the other
             {"pkg": "service", "run": "H17_wrap_sequence", "flags": {"common": ["-unwind", "200"]}, "reach": ["C17.wrap_sequence"]},
             # a writer waiting for room in the full outgoing ring proceeds only when there is enough (see C14)
-            {"pkg": "service", "run": "H14b_.*", "flags": {"common": ["-unwind", "40", "-sched", "canonical"]}, "reach_any": ["C14.blocked_producer", "C14.close_while_blocked"]},
+            {"pkg": "service", "run": "H14b_.*", "flags": {"common": ["-unwind", "100000", "-sched", "canonical"]}, "reach_any": ["C14.blocked_producer", "C14.close_while_blocked", "C14.blocked_readfrom"]},
             # writeMessage reserves Len() bytes and commits what Encode reports: both must be the wire size for every remaining length
             {"pkg": "message", "run": "H03a_header", "flags": {"common": ["-unwind", "40"]}, "reach": []},
         ],
@@ -451,15 +457,19 @@ CHECKS = {
         "max_validate_sched": {"quick": 8, "thorough": 24},
         "validate_under_race": True,
         "groups": [
-            {"pkg": "service", "run": "H18_.*", "flags": {"common": ["-unwind", "64", "-race"]},
-             "reach_any": ["C18.retained_update", "C18.fanout_churn", "C18.teardown", "C18.teardown_delivery", "C18.teardown_after_delivery", "C18.resume", "C18.ackqueue", "C18.inproc_api", "C18.will_during_takeover", "C18.close_during_teardown", "C18.close_vs_accept", "C18.close_during_fanout"]},
+            {"pkg": "service", "run": "H18_.*", "flags": {"common": ["-unwind", "3000", "-race"]},
+             "reach_any": ["C18.retained_update", "C18.fanout_churn", "C18.teardown", "C18.teardown_delivery", "C18.teardown_after_delivery", "C18.resume", "C18.ackqueue", "C18.inproc_api", "C18.will_during_takeover", "C18.close_during_teardown", "C18.close_vs_accept", "C18.close_during_fanout", "C18.retained_refresh_large"]},
             # the same scenarios with the threads rotated in the opposite order: which accesses a happens-before
             # detector sees unordered depends on the order in which the explored run took the locks
-            {"pkg": "service", "run": "H18_.*", "flags": {"common": ["-unwind", "64", "-race", "-schedrev"]}, "reach": []},
+            {"pkg": "service", "run": "H18_.*", "flags": {"common": ["-unwind", "3000", "-race", "-schedrev"]}, "reach": []},
             {"pkg": "service", "run": "H17_backpressure", "flags": {"common": ["-unwind", "100000", "-race"]}, "reach": []},
             {"pkg": "service", "run": "H17b_.*", "sched": True,
              "flags": {"common": ["-unwind", "64", "-sched", "explore", "-race"], "quick": ["-preempt", "1"], "thorough": ["-preempt", "2"]},
              "reach": ["C17.two_publishers"]},
+            # ... and with packets above 5000 bytes (larger than any size threshold a scratch-buffer shortcut might use)
+            {"pkg": "service", "run": "H17_two_large_writers", "sched": True,
+             "flags": {"common": ["-unwind", "20000", "-sched", "explore", "-race"], "quick": ["-preempt", "1"], "thorough": ["-preempt", "2"]},
+             "reach": ["C17.two_writers"]},
             # a ring closed by another goroutine while its consumer works on a block that straddles the end of the ring
             {"pkg": "service", "run": "H18_ring_close_vs_wrapped_consumer", "sched": True,
              "flags": {"common": ["-unwind", "64", "-sched", "explore", "-race"], "quick": ["-preempt", "1"], "thorough": ["-preempt", "2"]},
@@ -502,6 +512,9 @@ CHECKS = {
         "level_note": "canonical schedule; ConnectTLS and real brokers outside; one filter per request; the goroutine-leak check exists only in the engine (interpreter threads)",
         "max_validate": {"quick": 80, "thorough": 200},
         "groups": [
+            # the client's subscription store removes ALL callbacks of a filter (nil subscriber) when an unsubscribe completes:
+            # deeper filters below that level stay (see C06)
+            {"pkg": "topics", "run": "H06c_remove_all", "flags": {"common": ["-unwind", "40"]}, "reach": ["C06.remove_all"]},
             {"pkg": "service", "run": "H20_.*",
              "flags": {"common": ["-unwind", "64"], "quick": ["-bounds", "N20packets=2,N20levels=2"], "thorough": ["-bounds", "N20packets=3,N20levels=2"]},
              "reach_any": ["C20.connected", "C20.refused", "C20.garbage_answer", "C20.dispatched", "C20.done", "C20.two_requests", "C20.last_messages", "C20.reconnected"]},
